@@ -19,7 +19,7 @@ EXPLANATION = (
 TRUSTED = _c02.TRUSTED + ["corner lemma: a multilinear form over a box attains its extremes at corners; a^2 - b^2 additionally at a = 0 / b = 0 when the side straddles zero"]
 ASSUMPTIONS = ["rectangle sides satisfy lower <= upper", "finite endpoints; small shapes with precise products"]
 BUDGET = {'quick': dict(ob_deadline_s=150, total_s=170), 'thorough': dict(ob_deadline_s=600, total_s=1500)}
-BOUNDS = {'quick': 'endpoint mantissas 1..6 bits (+ - neg pos), 2..3 bits (* and square), prec 2..3, several sign patterns per side'}
+BOUNDS = {'thorough': 'quick + every sign pattern of the four parts for products/squares at 3..4-bit endpoints, 7..9-bit endpoints for sums at prec 5', 'quick': 'endpoint mantissas 1..6 bits (+ - neg pos), 2..3 bits (* and square), prec 2..3, several sign patterns per side'}
 
 
 def obligations(tier, seed=0):
@@ -50,4 +50,18 @@ def obligations(tier, seed=0):
         for y in small[:2] if not thorough else small:
             add(fn='mpci_mul', prec=2, x=x, y=y)
     add(fn='mpci_mul', prec=2, x=small[0], y=small[1], entry='op')
+    if thorough:
+        # every sign pattern of both parts of both operands at small sizes, and larger endpoints
+        S3 = sign_patterns(3, 4, 0, 1)
+        T3 = sign_patterns(2, 3, 0, 1)
+        allr = [[a, b] for a in S3 for b in T3]
+        for x in allr[::2]:
+            add(fn='mpci_square', prec=3, x=x)
+            for y in allr[1::7]:
+                add(fn='mpci_mul', prec=3, x=x, y=y)
+        big = [[sign_patterns(7, 8, 0, 2)[i], sign_patterns(6, 9, -2, 1)[j]] for i, j in ((0, 2), (2, 1), (1, 0), (2, 2))]
+        for fn in ('mpci_add', 'mpci_sub'):
+            for x in big:
+                for y in big:
+                    add(fn=fn, prec=5, x=x, y=y)
     return obs
